@@ -33,7 +33,7 @@ CH = "pygaps.characterisation"
 
 
 def zero(ctx, rule, where, key, expr, msg, sample=None):
-    verdict, wit = decide_zero(sp.simplify(expr))
+    verdict, wit = decide_zero(expr)
     ctx.ob(verdict == "zero", Finding(rule, where, key, f"{msg}; residual {sp.simplify(expr)} (witness {wit})"),
            nontrivial_key=(rule, key), sample=sample)
 
